@@ -114,3 +114,133 @@ Corollary cut_flip n p x : (x < n)%nat -> (p x <= 1)%nat ->
   cut_fn n (flip p x) = cut_fn n p - gain_fn n p x (1 - p x)%nat.
 Proof. intros Hx Hp. apply cut_move; auto. lia. Qed.
 End Cut.
+
+(* ------------------------------------------------------------------------ *)
+(* Link with the list-based definitions of Model/ArcSwap.v                   *)
+(* ------------------------------------------------------------------------ *)
+
+(* the sum ArcSwap computes from the adjacency row of a vertex in part [ip] for target [tg] *)
+Definition row_gain (p : list nat) (ip tg : nat) (r : list (nat * Z)) : Z :=
+  sumZ (map (fun e => gain_term ip tg (pid p (fst e)) (snd e)) r).
+
+Definition wtr (r : list (nat * Z)) (u : nat) : Z :=
+  sumZ (map (fun e => if Nat.eqb (fst e) u then snd e else 0) r).
+
+Lemma wt_wtr g v u : wt g v u = wtr (row g v) u.
+Proof. reflexivity. Qed.
+
+Lemma sumn_add n f h : sumn n (fun i => f i + h i) = sumn n f + sumn n h.
+Proof. induction n as [|m IH]; cbn [sumn]; [reflexivity|]. rewrite IH. lia. Qed.
+
+Lemma sumn_trunc n m f : (m <= n)%nat -> (forall u, (m <= u < n)%nat -> f u = 0) -> sumn n f = sumn m f.
+Proof.
+  induction n as [|k IH]; intros Hm Hz.
+  - replace m with O by lia. reflexivity.
+  - destruct (Nat.eq_dec m (S k)) as [->|Hne]; [reflexivity|].
+    cbn [sumn]. rewrite IH by (try lia; intros; apply Hz; lia). rewrite (Hz k) by lia. lia.
+Qed.
+
+Lemma sumZ_seq_sumn f n : sumZ (map f (seq 0 n)) = sumn n f.
+Proof.
+  induction n as [|m IH]; [reflexivity|].
+  rewrite seq_S, map_app, sumZ_app, IH. cbn. lia.
+Qed.
+
+Lemma wtr_notin r u : ~ In u (map fst r) -> wtr r u = 0.
+Proof.
+  unfold wtr. induction r as [|e r IH]; cbn [map sumZ fold_right In]; intros H; [reflexivity|].
+  fold (sumZ (map (fun e0 => if Nat.eqb (fst e0) u then snd e0 else 0) r)).
+  rewrite IH by tauto. destruct (Nat.eqb_spec (fst e) u); [exfalso; apply H; auto|lia].
+Qed.
+
+(* grouping the entries of a row by neighbour *)
+Lemma sum_group (c : nat -> Z) r n : (forall e, In e r -> (fst e < n)%nat) ->
+  sumZ (map (fun e => c (fst e) * snd e) r) = sumn n (fun u => c u * wtr r u).
+Proof.
+  induction r as [|e r IH]; intros Hr.
+  - unfold wtr; cbn. clear Hr. induction n as [|m IHm]; cbn [sumn]; [reflexivity|]. rewrite <- IHm. lia.
+  - cbn [map]. change (sumZ (?a :: ?l)) with (a + sumZ l). rewrite IH by (intros; apply Hr; right; assumption).
+    transitivity (sumn n (fun u => (if Nat.eqb u (fst e) then c u * snd e else 0) + c u * wtr r u)).
+    + rewrite sumn_add. f_equal. rewrite (sumn_single _ _ (fst e)).
+      * assert (L : (fst e < n)%nat) by (apply Hr; left; reflexivity).
+        apply Nat.ltb_lt in L. rewrite L. now rewrite Nat.eqb_refl.
+      * intros i _ Hi. apply Nat.eqb_neq in Hi. now rewrite Hi.
+    + apply sumn_ext. intros i _. unfold wtr. cbn [map]. change (sumZ (?a :: ?l)) with (a + sumZ l).
+      rewrite (Nat.eqb_sym (fst e) i). destruct (Nat.eqb i (fst e)); lia.
+Qed.
+
+Lemma cut_fn_ext wt n p q : (forall i, (i < n)%nat -> p i = q i) -> cut_fn wt n p = cut_fn wt n q.
+Proof.
+  induction n as [|m IH]; intros H; [reflexivity|].
+  cbn [cut_fn]. rewrite IH by (intros; apply H; lia). f_equal.
+  apply sumn_ext. intros u Hu. unfold cross. rewrite !H by lia. reflexivity.
+Qed.
+
+Lemma pid_set_nth p v x i : (v < length p)%nat -> pid (set_nth p v x) i = upd (pid p) v x i.
+Proof.
+  unfold pid, upd. revert v i. induction p as [|y p IH]; intros v i Hv; [cbn in Hv; lia|].
+  destruct v as [|v], i as [|i]; cbn [set_nth nth Nat.eqb]; try reflexivity.
+  apply IH. cbn in Hv. lia.
+Qed.
+
+Section ListCut.
+Variable g : graph.
+Hypothesis wt_sym : forall a b, wt g a b = wt g b a.
+Hypothesis in_range : forall a u, In u (nbrs g a) -> (u < length g)%nat.
+
+Lemma row_in_range a e : In e (row g a) -> (fst e < length g)%nat.
+Proof. intros H. apply (in_range a). unfold nbrs. now apply in_map. Qed.
+
+Lemma cut_row_sumn p m : (m <= length g)%nat ->
+  cut_row p m (row g m) = sumn m (fun u => cross (wt g) (pid p) u m).
+Proof.
+  intros Hm. unfold cut_row.
+  set (c := fun u => if Nat.ltb u m && negb (Nat.eqb (pid p u) (pid p m)) then 1 else 0).
+  transitivity (sumZ (map (fun e => c (fst e) * snd e) (row g m))).
+  { f_equal. apply map_ext. intros e. unfold c. destruct (_ && _); lia. }
+  rewrite (sum_group c _ (length g)) by apply row_in_range.
+  rewrite (sumn_trunc _ m);
+    [ | assumption | intros u Hu; unfold c; destruct (Nat.ltb_spec u m); [lia|cbn [andb]; lia] ].
+  apply sumn_ext. intros u Hu. unfold c, cross. rewrite <- wt_wtr.
+  apply Nat.ltb_lt in Hu. rewrite Hu. cbn [andb].
+  destruct (Nat.eqb (pid p u) (pid p m)); cbn [negb]; lia.
+Qed.
+
+Lemma cut_is_cut_fn p : cut g p = cut_fn (wt g) (length g) (pid p).
+Proof.
+  unfold cut.
+  assert (H : forall m, (m <= length g)%nat ->
+     sumZ (map (fun v => cut_row p v (row g v)) (seq 0 m)) = cut_fn (wt g) m (pid p)).
+  { induction m as [|m IH]; intros Hm; [reflexivity|].
+    rewrite seq_S, map_app, sumZ_app, IH by lia. cbn [cut_fn Nat.add map].
+    rewrite cut_row_sumn by lia. cbn. lia. }
+  apply H. lia.
+Qed.
+
+Lemma row_gain_is_gain_fn p v tg : ~ In v (nbrs g v) ->
+  row_gain p (pid p v) tg (row g v) = gain_fn (wt g) (length g) (pid p) v tg.
+Proof.
+  intros Hself. unfold row_gain, gain_fn.
+  set (c := fun u => if Nat.eqb (pid p u) (pid p v) then -1 else if Nat.eqb (pid p u) tg then 1 else 0).
+  transitivity (sumZ (map (fun e => c (fst e) * snd e) (row g v))).
+  { f_equal. apply map_ext. intros e. unfold c, gain_term.
+    destruct (Nat.eqb _ _); [lia|]. destruct (Nat.eqb _ _); lia. }
+  rewrite (sum_group c _ (length g)) by apply row_in_range.
+  apply sumn_ext. intros u Hu. unfold gterm, c. rewrite <- wt_wtr.
+  destruct (Nat.eqb_spec u v) as [->|Hne].
+  - rewrite wt_wtr, wtr_notin by exact Hself. lia.
+  - destruct (Nat.eqb _ _); [lia|]. destruct (Nat.eqb _ _); lia.
+Qed.
+
+(* storing part [tg] at vertex [v] lowers the edge cut by the gain read from v's row *)
+Theorem cut_store p v tg :
+  (v < length p)%nat -> (v < length g)%nat -> ~ In v (nbrs g v) -> pid p v <> tg ->
+  cut g (set_nth p v tg) = cut g p - row_gain p (pid p v) tg (row g v).
+Proof.
+  intros Hvp Hvg Hself Hne.
+  rewrite !cut_is_cut_fn.
+  rewrite (cut_fn_ext _ _ _ (upd (pid p) v tg)) by (intros; apply pid_set_nth; assumption).
+  rewrite cut_move by (try exact wt_sym; assumption).
+  now rewrite row_gain_is_gain_fn.
+Qed.
+End ListCut.
